@@ -99,8 +99,11 @@ func checkReader(c *h.Ctx, r reader, cs Case, where string) {
 		c.Fail("C19/stored-missing/"+where, "%s: stored ciphertext not readable: %v", where, err)
 		return
 	}
-	if len(stored) != len(cs.Plain)+40 {
-		c.Fail("C19/stored-length/"+where, "%s: stored value is %d bytes for a %d-byte plaintext (expected +40)", where, len(stored), len(cs.Plain))
+	// (the stored length is not part of the property: a different framing / overhead is a legitimate change)
+	if len(stored) == len(cs.Plain)+40 {
+		c.P.Class("overhead=40")
+	} else {
+		c.P.Class("overhead=other")
 	}
 	if form := containsAnyForm(stored, cs.Plain); form != "" {
 		c.Fail("C19/plaintext-in-stored-value/"+where, "%s: the plaintext appears (%s) in the stored value", where, form)
@@ -262,7 +265,12 @@ func run(c *h.Ctx, cs Case) {
 		step = len(stored)/600 + 1
 	}
 	flips := 0
-	for i := 0; i < len(stored); i += step {
+	for i := 0; i < len(stored); i++ {
+		// long ciphertexts: every bit of the first 96 and the last 48 bytes (nonce, tag, first and last
+		// blocks), and every bit of every step-th byte in between
+		if step > 1 && i >= 96 && i < len(stored)-48 && i%step != 0 {
+			continue
+		}
 		for bit := 0; bit < 8; bit++ {
 			t := append([]byte{}, stored...)
 			t[i] ^= 1 << bit
@@ -310,7 +318,7 @@ func draw(t *rapid.T) Case {
 	case 3:
 		cs.Plain = rapid.SliceOfN(rapid.Byte(), 16, 300).Draw(t, "bin")
 	case 4:
-		n := rapid.SampledFrom([]int{215, 216, 255, 256, 1024, 4055, 4056, 4095, 4096, h.N(1024, 65536), h.N(4097, 65496)}).Draw(t, "biglen")
+		n := rapid.SampledFrom([]int{215, 216, 255, 256, 1024, 4055, 4056, 4095, 4096, 16344, 16383, 16384, 16385, 32769, 65496, 65536, 65537, h.N(1024, 131073), h.N(4097, 1<<20+1)}).Draw(t, "biglen")
 		seed := rapid.Byte().Draw(t, "bigseed")
 		cs.Plain = make([]byte, n)
 		for i := range cs.Plain {
